@@ -27,7 +27,7 @@ def _c09():
 def _c15():
 	from engines.dump import ENGINE
 	return ENGINE, dict(
-		level="fault_enumeration", runs_quick=2000, budget_quick_s=45, chunk=10,
+		level="fault_enumeration", runs_quick=1600, budget_quick_s=45, chunk=10,
 		rule="one case = one seeded history of append_msg/append_all/read/reopen operations on the real "
 			"DATADumpFile over a simulated disk, followed by crash cuts of the resulting byte stream: EVERY "
 			"byte offset when the history has few records (quick <= 5, thorough <= 12), otherwise all record "
@@ -38,10 +38,10 @@ def _c15():
 		assumptions=[
 			"record boundaries are measured by writing each message alone with the real writer (no layout assumed)",
 			"a crash leaves a prefix of the byte stream (no reordering of writes within the file)",
-			"SimFile models POSIX append/seek semantics; 5 % of histories are mirrored onto a real file",
+			"captures opened by path live on real files in a private scratch directory, captures passed as file objects on the simulated disk (SimFile models POSIX append/seek semantics); content is carried over at every re-open",
 		],
 		real_stub={"real": ["data_dump.DATADumpFile/DATADump", "data_msg.TxMsg/RxMsg"],
-			"simulated": ["file system (SimDisk/SimFile)", "crash = truncation of the durable byte stream"]},
+			"simulated": ["file objects (SimDisk/SimFile)", "crash = truncation of the durable byte stream, re-read by a fresh reader (by path: a real scratch file; as file object: SimFile)"]},
 	)
 
 
